@@ -1,2 +1,142 @@
-(* C03 — placeholder until the proofs land *)
-From Prov Require Import Str Sexp Tables Nsm Scope.
+(* C03 — Qualified names keep their URI and stay unambiguous under any namespace
+   history.  Statements only; proofs are in theories/NsmProofs.v, ScopeProofs.v. *)
+From Coq Require Import String List.
+From Prov Require Import Str Sexp Tables Nsm NsmProofs Scope ScopeProofs.
+Import ListNotations.
+Open Scope string_scope.
+
+(* (a) resolving a QualifiedName never changes its URI — after ANY history, on the
+   document or any bundle, and the call never fails *)
+Theorem C03a_uri_preserved : forall ops t q,
+  let s := srun ops in
+  forall m, get_mgr s t = Some m ->
+  exists q', snd (sstep s (OResolve t (NQn q))) = ObQn (Some q') /\ qn_uri q' = qn_uri q.
+Proof. exact uri_preserved. Qed.
+Print Assumptions C03a_uri_preserved.
+
+(* (b) a registered (non-default) prefix is never re-pointed, by any operation on
+   any container of the scope *)
+Theorem C03b_prefix_stable : forall s o t m p v,
+  get_mgr s t = Some m -> p <> "" -> lookup p (tbl m) = Some v ->
+  exists m', get_mgr (fst (sstep s o)) t = Some m' /\ lookup p (tbl m') = Some v.
+Proof. exact prefix_stable. Qed.
+Print Assumptions C03b_prefix_stable.
+
+(* (b) a clash yields a fresh prefix bound to the requested URI and leaves the
+   clashing prefix as it was *)
+Theorem C03b_clash_fresh : forall m n m' r,
+  add_namespace m n = Some (m', r) ->
+  in_values n (tbl m) = false -> ren_lookup n (renmap m) = None ->
+  lookup (ns_uri n) (urimap m) = None -> mem (ns_prefix n) (tbl m) = true ->
+  lookup (ns_prefix r) (tbl m) = None /\ lookup (ns_prefix r) (tbl m') = Some r /\
+  ns_uri r = ns_uri n /\ lookup (ns_prefix n) (tbl m') = lookup (ns_prefix n) (tbl m).
+Proof. exact add_namespace_clash_fresh. Qed.
+Print Assumptions C03b_clash_fresh.
+
+(* the while-True loop of _get_unused_prefix terminates *)
+Theorem C03b_unused_prefix_terminates : forall p (t : list (string * ns)),
+  get_unused_prefix p t <> None.
+Proof. exact unused_prefix_fuel. Qed.
+Print Assumptions C03b_unused_prefix_terminates.
+
+(* (c) a name handed out at any point of a disciplined history still resolves,
+   from its printed form, to the same URI at any later point.  [good] is the usage
+   discipline of the property (default namespace not re-bound; namespaces registered
+   under non-empty prefixes — finding C03-F3 otherwise); [printable] is what the
+   syntax prefix:local can carry (finding C03-F2 otherwise); [no_capture] excludes
+   the open finding C03-F1 (it is trivially true for the document itself). *)
+Theorem C03c_handed_out_stable : forall ops1 t x q ops2,
+  good scope_init (ops1 ++ OResolve t x :: ops2) ->
+  snd (sstep (srun ops1) (OResolve t x)) = ObQn (Some q) ->
+  printable q ->
+  let s := srun (ops1 ++ OResolve t x :: ops2) in
+  no_capture s t q ->
+  exists q', snd (sstep s (OResolve t (NStr (qn_str q)))) = ObQn (Some q') /\ qn_uri q' = qn_uri q.
+Proof. exact handed_out_stable. Qed.
+Print Assumptions C03c_handed_out_stable.
+
+Corollary C03c_document : forall ops1 x q ops2,
+  good scope_init (ops1 ++ OResolve None x :: ops2) ->
+  snd (sstep (srun ops1) (OResolve None x)) = ObQn (Some q) ->
+  printable q ->
+  let s := srun (ops1 ++ OResolve None x :: ops2) in
+  exists q', snd (sstep s (OResolve None (NStr (qn_str q)))) = ObQn (Some q') /\ qn_uri q' = qn_uri q.
+Proof.
+  intros ops1 x q ops2 G H P s.
+  assert (A : SAll InvB (srun ops1)).
+  { apply good_app in G. destruct G as [G1 _].
+    apply good_fold_inv; [apply SAll_init; apply InvB_init | exact G1]. }
+  destruct (sstep (srun ops1) (OResolve None x)) as [s1 ob] eqn:E1. simpl in H. subst ob.
+  pose proof (resolve_hands_out _ _ _ _ _ A E1) as [m1 [G1 [B|[NT _]]]]; [|contradiction].
+  apply (handed_out_stable ops1 None x q ops2 G); [rewrite E1; reflexivity | exact P |].
+  (* for the document, no_capture follows from Handed at the final state *)
+  intros m Gm.
+  apply good_app in G. destruct G as [Ga Gb]. cbn [good] in Gb. destruct Gb as [_ Gb].
+  change (fold_left (fun s o => fst (sstep s o)) ops1 scope_init) with (srun ops1) in Gb.
+  rewrite E1 in Gb. cbn [fst] in Gb.
+  assert (A1 : SAll InvB s1).
+  { replace s1 with (fst (sstep (srun ops1) (OResolve None x))) by (rewrite E1; reflexivity).
+    apply sstep_good; [exact A | exact I]. }
+  assert (H1 : Handed s1 None q) by (exists m1; split; [exact G1 | left; exact B]).
+  destruct (good_fold _ _ _ _ A1 Gb H1) as [_ [m2 [G2 [B2|[NT _]]]]]; [|contradiction].
+  assert (ES : srun (ops1 ++ OResolve None x :: ops2) = fold_left (fun s o => fst (sstep s o)) ops2 s1).
+  { unfold srun at 1. rewrite fold_left_app. cbn [fold_left].
+    change (fold_left (fun s o => fst (sstep s o)) ops1 scope_init) with (srun ops1).
+    rewrite E1. reflexivity. }
+  rewrite ES in Gm. rewrite G2 in Gm. inversion Gm; subst. left; exact B2.
+Qed.
+Print Assumptions C03c_document.
+
+(* ---- non-vacuity: a history with a clash, a default namespace, a bundle, a name
+   resolved through the parent; all hypotheses of C03c hold and it computes *)
+Definition ex_ops1 : list nsop :=
+  [OAddNs None "ex" "http://a/"; OAddNs None "ex" "http://b/"; OSetDefault None "http://d/";
+   ONewBundle; OAddNs (Some 0) "foo" "http://c/"].
+Definition ex_ops2 : list nsop :=
+  [OAddNs (Some 0) "bar" "http://e/"; OResolve None (NQn (mkQn (mkNs "" "http://z/") "k"));
+   OSetDefault None "http://d/"].
+
+Example C03c_premises_satisfiable :
+  good scope_init (ex_ops1 ++ OResolve (Some 0) (NStr "ex_1:e1") :: ex_ops2) /\
+  snd (sstep (srun ex_ops1) (OResolve (Some 0) (NStr "ex_1:e1")))
+    = ObQn (Some (mkQn (mkNs "ex_1" "http://b/") "e1")) /\
+  printable (mkQn (mkNs "ex_1" "http://b/") "e1") /\
+  no_capture (srun (ex_ops1 ++ OResolve (Some 0) (NStr "ex_1:e1") :: ex_ops2)) (Some 0)
+             (mkQn (mkNs "ex_1" "http://b/") "e1").
+Proof.
+  split; [|split; [|split]].
+  - apply goodb_good. vm_compute. reflexivity.
+  - vm_compute. reflexivity.
+  - unfold printable; cbn [qn_ns ns_prefix]. split; [vm_compute; reflexivity | discriminate].
+  - apply no_captureb_ok. vm_compute. reflexivity.
+Qed.
+
+(* ---- the open findings are counterexamples in the model too ---- *)
+(* C03-F1: a bundle registers a prefix after handing out a name through its parent *)
+Definition f1_ops : list nsop :=
+  [OAddNs None "ex" "http://a/"; ONewBundle; OResolve (Some 0) (NStr "ex:e1");
+   OAddNs (Some 0) "ex" "http://b/"].
+Lemma C03c_F1_refuted :
+  good scope_init f1_ops /\
+  snd (sstep (srun [OAddNs None "ex" "http://a/"; ONewBundle]) (OResolve (Some 0) (NStr "ex:e1")))
+    = ObQn (Some (mkQn (mkNs "ex" "http://a/") "e1")) /\
+  snd (sstep (srun f1_ops) (OResolve (Some 0) (NStr "ex:e1")))
+    = ObQn (Some (mkQn (mkNs "ex" "http://b/") "e1")).
+Proof. split; [apply goodb_good; vm_compute; reflexivity | split; vm_compute; reflexivity]. Qed.
+
+(* C03-F2: a default-namespace local part containing ':' *)
+Lemma C03c_F2_refuted :
+  let q := mkQn (mkNs "" "http://b/") "e:f" in
+  snd (sstep scope_init (OResolve None (NQn q))) = ObQn (Some q) /\
+  snd (sstep (srun [OResolve None (NQn q)]) (OResolve None (NStr (qn_str q)))) = ObQn None.
+Proof. split; vm_compute; reflexivity. Qed.
+
+(* C03-F3: add_namespace with an empty prefix next to an adopted default *)
+Definition f3_ops : list nsop :=
+  [OResolve None (NQn (mkQn (mkNs "" "http://a/") "e1")); OAddNs None "" "http://b/"].
+Lemma C03c_F3_refuted :
+  let q := mkQn (mkNs "" "http://b/") "e2" in
+  snd (sstep (srun f3_ops) (OResolve None (NQn q))) = ObQn (Some q) /\
+  snd (sstep (srun (f3_ops ++ [OResolve None (NQn q)])) (OResolve None (NStr "e2")))
+    = ObQn (Some (mkQn (mkNs "" "http://a/") "e2")).
+Proof. split; vm_compute; reflexivity. Qed.
